@@ -39,23 +39,52 @@ def bp_inside(bps, lo, hi):
     return i < len(bps) and bps[i] <= hi
 
 
+GROUPS = ("contracts", "center_mod", "decompose", "use_hint", "power2round", "half_byte", "make_hint", "three_bytes")
+
+
+def group_of(name):
+    for g in ("center_mod", "use_hint", "power2round"):
+        if name.startswith(g):
+            return g
+    return "decompose"
+
+
 def main(tier):
     rep = vlib.Report("C15", tier)
-    obligations = discharged = 0
-    samples = []
-    stats = {}
+    cnt = [0, 0]
 
     def ob(ok, key, detail):
-        nonlocal obligations, discharged
-        obligations += 1
+        cnt[0] += 1
         if ok:
-            discharged += 1
+            cnt[1] += 1
         else:
             rep.violation(key, detail)
 
+    samples, stats = analyse(rep, ob, tier, None)
+    cov = {
+        "obligations": cnt[0], "discharged": cnt[1],
+        "checker_cmd": "python3 bin/check C15 (driver ai mode with in-driver piecewise-affine bisection; cells checked against lib/spec.py)",
+        "trusted_base": ["abstract interpreter soundness (exact affine forms, congruences, affine quotient forms)", "lib/spec.py transcribes FIPS 204 Alg. 14, 15, 35-40 and mod+-",
+                         "rules/spec_breakpoints.json (brute-forced from lib/spec.py, re-derived in the thorough tier)"],
+        "samples": samples[:40],
+        "functions": stats,
+        "explanation": "each cell is a set of inputs decided at once; two affine functions equal at both ends of a cell with no breakpoint of the definition inside are equal on the whole cell",
+    }
+    return rep.finish("proof", cov, ["spec transcription", "abstract interpreter soundness"])
+
+
+def analyse(rep, ob, tier, only, prefix=""):
+    """only: None (everything) or a set of GROUPS; keys of violations get `prefix`"""
+    samples = []
+    stats = {}
+    want_g = lambda g: only is None or g in only
+    if prefix:
+        ob0 = ob
+        ob = lambda ok, key, detail: ob0(ok, prefix + key, detail)
+
     bpf = json.load(open(os.path.join(vlib.VERIF, "rules", "spec_breakpoints.json")))
     inv32 = pow(pow(2, 32, Q), Q - 2, Q)
-    jobs = [
+    jobs = [] if not want_g("contracts") else [
         ("mont_reduce", "helpers::mont_reduce", {"arg0": "-17996808479301632..17996808470921215", "modulus": str(Q), "probe": "helpers::mont_reduce"}),
         ("partial_reduce32", "helpers::partial_reduce32", {"arg0": "-%d..%d" % (PRE32, PRE32), "modulus": str(Q), "probe": "helpers::partial_reduce32"}),
         ("full_reduce32", "helpers::full_reduce32", {"arg0": "-%d..%d" % (PRE32, PRE32), "modulus": str(Q), "probe": "helpers::full_reduce32"}),
@@ -84,17 +113,18 @@ def main(tier):
             grids["%s%s" % (f, gname)] = "%d:%d" % (2 * g2, g2 + 1)
         for h in (0, 1):
             grids["use_hint%s_h%d" % (gname, h)] = "%d:%d" % (2 * g2, g2 + 1)
+    pw = {k: v for k, v in pw.items() if want_g(group_of(k))}
     for name, (root, fixed, argk, dom, comps) in pw.items():
         o = dict(fixed)
         o.update({"pwa": argk, "pwa.range": "%d..%d" % dom, "pwa.accept": "exact", "pwa.grid": grids[name]})
         if name == "power2round":
             o["fast_from_fn"] = "1"
         jobs.append(("pwa:" + name, root, o))
-    for eta in (2, 4):
+    for eta in ((2, 4) if want_g("half_byte") else ()):
         for b in range(16):
             jobs.append(("hb#%d#%d" % (eta, b), "conversion::coeff_from_half_byte::<false>", {"arg0": "%d..%d" % (eta, eta), "arg1": "%d..%d" % (b, b)}))
     mh_points = []
-    for gname, g2 in G2.items():
+    for gname, g2 in (G2.items() if want_g("make_hint") else ()):
         for r0, z in ((0, 0), (g2 - 5, 3), (g2 - 5, 10), (Q - 1 - g2, g2), (5, g2), (g2, 1), (g2 + 1, Q - 1), (3 * g2, 2 * g2 + 1)):
             mh_points.append((gname, r0, z))
             jobs.append(("mh#%s#%d#%d" % (gname, r0, z), "high_low::make_hint", {"arg0": "%d..%d" % (g2, g2), "arg1": "%d..%d" % (z, z), "arg2": "%d..%d" % (r0, r0)}))
@@ -102,8 +132,8 @@ def main(tier):
     with vlib.Scratch() as sc:
         r, err, dt = vlib.run_ai(sc, jobs, tag="c15", timeout=3000)
         if r is None:
-            vlib.fail_closed(rep, "driver", err[-2000:])
-            return rep.finish("proof", {"obligations": 1, "discharged": 0, "checker_cmd": "bin/check C15", "trusted_base": []}, [])
+            vlib.fail_closed(rep, prefix + "driver", err[-2000:])
+            return samples, stats
         res = {j["id"]: j for j in r["jobs"]}
         viol = {}
         for s in r["sites"]:
@@ -115,7 +145,7 @@ def main(tier):
         # ---------------- (i) contracts
         want = {"mont_reduce": ((-(Q - 1), Q - 1), inv32), "partial_reduce32": ((-(Q - 1), Q - 1), 1), "full_reduce32": ((0, Q - 1), 1),
                 "center_mod": ((-(Q - 1) // 2, (Q - 1) // 2), 1)}
-        for jid, ((wlo, whi), coef) in want.items():
+        for jid, ((wlo, whi), coef) in (want.items() if want_g("contracts") else ()):
             j = res[jid]
             for s in viol.get(jid, []):
                 ob(False, "contract:%s:%s" % (jid, aicheck.stable_key(s)), aicheck.site_report(s))
@@ -134,8 +164,8 @@ def main(tier):
             ob(cong_ok, "contract-congruence:%s" % jid, {"rule": "result is congruent to %d * input modulo q" % coef, "function": j["root"], "abstract_congruence": seen})
             samples.append({"function": jid, "input_range": [x for x in jobs if x[0] == jid][0][2]["arg0"], "result": rr, "congruence_mod_q": "%d * input" % coef})
         # partial_reduce64
-        j = res["pwa:partial_reduce64"]
-        cells = (j.get("pwa") or {}).get("cells", [])
+        j = res.get("pwa:partial_reduce64", {})
+        cells = (j.get("pwa") or {}).get("cells", []) if want_g("contracts") else []
         hull = [0, 0]
         n_ok = 0
         for lo, hi, status, leaves in cells:
@@ -149,9 +179,10 @@ def main(tier):
                 ob(False, "contract:partial_reduce64", {"rule": "no overflow / self-check failure for x * 2^32 with |x| below the documented bound", "x_cell": [lo, hi], "status": status,
                                                         "sites": [aicheck.stable_key(s) for s in viol.get("pwa:partial_reduce64", [])][:4]})
         covered = sum(hi - lo + 1 for lo, hi, st_, _ in cells)
-        ob(covered == 2 * B64 + 1 and n_ok >= 1, "pwa-cover:partial_reduce64", {"rule": "the cells tile the documented domain", "covered": covered, "domain": 2 * B64 + 1})
-        stats["partial_reduce64"] = {"cells": len(cells), "abstract_evaluations": (j.get("pwa") or {}).get("evaluations"), "result_hull": hull, "domain_x": [-B64, B64],
-                                     "single_point_cells": sum(1 for c in cells if c[0] == c[1])}
+        if want_g("contracts"):
+            ob(covered == 2 * B64 + 1 and n_ok >= 1, "pwa-cover:partial_reduce64", {"rule": "the cells tile the documented domain", "covered": covered, "domain": 2 * B64 + 1})
+            stats["partial_reduce64"] = {"cells": len(cells), "abstract_evaluations": (j.get("pwa") or {}).get("evaluations"), "result_hull": hull, "domain_x": [-B64, B64],
+                                         "single_point_cells": sum(1 for c in cells if c[0] == c[1])}
         # ---------------- (ii) exactness
         for name, (root, fixed, argk, dom, comps) in pw.items():
             j = res["pwa:" + name]
@@ -189,7 +220,7 @@ def main(tier):
             stats[name] = {"cells": len(cells), "exact_cells": n_exact, "abstract_evaluations": (j.get("pwa") or {}).get("evaluations"), "smallest_cell": min(widths) if widths else None,
                            "largest_cell": max(widths) if widths else None, "domain": list(dom)}
         # half bytes
-        for eta in (2, 4):
+        for eta in ((2, 4) if want_g("half_byte") else ()):
             for b in range(16):
                 j = res["hb#%d#%d" % (eta, b)]
                 wantv = spec.coeff_from_half_byte(b, eta)
@@ -200,38 +231,33 @@ def main(tier):
                     ok = list(e.keys()) == ["v0"] and e["v0"][0].get("int") == [wantv, wantv]
                 ob(ok and not viol.get("hb#%d#%d" % (eta, b)), "exact:coeff_from_half_byte:eta%d" % eta,
                    {"rule": "CoeffFromHalfByte equals Alg. 15", "eta": eta, "b": b, "code": j["partitions"], "spec": wantv})
-        stats["coeff_from_half_byte"] = {"points": 32}
+        if want_g("half_byte"):
+            stats["coeff_from_half_byte"] = {"points": 32}
         for gname, r0, z in mh_points:
             j = res["mh#%s#%d#%d" % (gname, r0, z)]
             wantv = spec.make_hint(z, r0, G2[gname])
             got = j["result"].get("int") if isinstance(j["result"], dict) else None
             ob(got == [wantv, wantv], "exact:make_hint", {"rule": "MakeHint equals Alg. 39 on the evaluated point", "gamma2": G2[gname], "z": z, "r": r0, "code": got, "spec": wantv})
         # ---- CoeffFromThreeBytes: boxes over (b0, b1, b2), a few rounds
-        three_bytes(sc, rep, ob, stats)
+        if want_g("three_bytes"):
+            three_bytes(sc, rep, ob, stats)
         # ---- MakeHint structure
-        facts, err, dt = vlib.run_driver(sc, "facts", flags="dbg", tag="c15facts")
-        if facts is None:
+        facts, err, dt = vlib.run_driver(sc, "facts", flags="dbg", tag="c15facts") if want_g("make_hint") else ({"instances": None}, "", 0)
+        if facts is not None and facts["instances"] is None:
+            pass
+        elif facts is None:
             vlib.fail_closed(rep, "facts", err[-1000:])
         else:
             mh = [i for i in facts["instances"] if i["name"] == "high_low::make_hint"]
             ok = len(mh) == 1 and [c.get("resolved") for c in mh[0]["calls"]] == ["high_low::high_bits", "high_low::high_bits"]
             ob(ok, "structure:make_hint", {"rule": "make_hint is HighBits(r) != HighBits(r + z): exactly two calls to high_bits", "calls": mh and [c.get("resolved") for c in mh[0]["calls"]]})
-    if tier == "thorough":
+    if tier == "thorough" and only is None:
         sys.path.insert(0, vlib.VERIF)
         import tools_gen_spec_breakpoints as gen
         for k, (f, slope) in gen.components().items():
             got = spec.breakpoints(f, slope, 0, Q - 1)
             ob(got == bpf[k]["breakpoints"], "oracle-table:%s" % k, {"rule": "rules/spec_breakpoints.json equals the brute-force breakpoints of lib/spec.py", "component": k})
-    cov = {
-        "obligations": obligations, "discharged": discharged,
-        "checker_cmd": "python3 bin/check C15 (driver ai mode with in-driver piecewise-affine bisection; cells checked against lib/spec.py)",
-        "trusted_base": ["abstract interpreter soundness (exact affine forms, congruences, affine quotient forms)", "lib/spec.py transcribes FIPS 204 Alg. 14, 15, 35-40 and mod+-",
-                         "rules/spec_breakpoints.json (brute-forced from lib/spec.py, re-derived in the thorough tier)"],
-        "samples": samples[:40],
-        "functions": stats,
-        "explanation": "each cell is a set of inputs decided at once; two affine functions equal at both ends of a cell with no breakpoint of the definition inside are equal on the whole cell",
-    }
-    return rep.finish("proof", cov, ["spec transcription", "abstract interpreter soundness"])
+    return samples, stats
 
 
 def three_bytes(sc, rep, ob, stats):
